@@ -99,6 +99,7 @@ type node struct {
 
 	mu        sync.Mutex
 	stall     chan struct{} // non-nil: the pump does not read until it is closed
+	tokens    chan struct{} // while stalled: one token lets the pump read exactly one more event
 	delayNs   int64
 	events    []evRec
 	markSeen  int
@@ -370,6 +371,7 @@ func (w *world) addNode(n *node) {
 	}
 	n.note = make(chan struct{}, 1)
 	n.eof = make(chan struct{})
+	n.tokens = make(chan struct{}, 1024)
 	n.checkGet = w.cfg.checkGet
 	if n.kind != "mon" {
 		if p := n.publisher(); p != nil {
@@ -415,7 +417,10 @@ func (n *node) pump() {
 	readych := n.leaf.Ready()
 	for {
 		if g := n.gate(); g != nil {
-			<-g
+			select {
+			case <-g:
+			case <-n.tokens:
+			}
 		}
 		ev, ok := <-evch
 		if !ok {
@@ -850,6 +855,15 @@ func (w *world) stallNode(n *node) {
 	}
 	n.mu.Unlock()
 	w.h("stall consumer of %s", n.name)
+}
+
+// grantStalled lets the stalled consumer of n read exactly k more events and
+// stall again.
+func (w *world) grantStalled(n *node, k int) {
+	for i := 0; i < k; i++ {
+		n.tokens <- struct{}{}
+	}
+	w.h("stalled consumer of %s reads %d events and stops again", n.name, k)
 }
 
 func (w *world) unstallNode(n *node) {
@@ -1315,6 +1329,9 @@ func (w *world) abort() {
 	w.finished = true
 	for _, n := range w.nodes {
 		w.unstallNode(n)
+		if n.cb != nil {
+			n.cb.unblock() // a handler left blocked by a failed case would keep its monitor goroutine alive for good
+		}
 	}
 	w.cancel()
 	go w.root.Close()
